@@ -415,3 +415,60 @@ brk_on("R12-1", "on-R12-1-frame-header-cursor-asks-for-one-byte-less", ["C08"],
 brk_on("R10-4", "on-R10-4-limit-helper-writes-unconditionally", ["C18"],
     [("jpeg2000/htj2k/parameters.go", "	switch {\n	case *field < lowest:\n		*field = lowest\n	case *field > highest:\n		*field = highest\n	}", "	*field = max(lowest, min(*field, highest))")],
     "PARAMS-RO", "limitTo")
+
+# ---------------------------------------------------------------- round 5: ordinary maintenance refactorings (R13..R16) and breaks planted in them
+refactor("R13-1", ["C08", "C09", "C16"])
+refactor("R13-2", ["C08", "C09", "C10", "C16", "C17"])
+refactor("R13-3", ["C08", "C09", "C10", "C16", "C17"])
+refactor("R13-4", ["C08", "C09", "C10"])
+refactor("R13-5", ["C08", "C10", "C17"])
+refactor("R14-1", ["C08", "C09"])
+refactor("R14-2", ["C08", "C10", "C19"])
+refactor("R14-3", ["C04", "C08", "C09"])
+refactor("R14-4", ["C08", "C09", "C10"])
+refactor("R14-5", ["C08", "C09"])
+refactor("R15-1", ["C16", "C17", "C18"])
+refactor("R15-2", ["C16", "C17", "C10"])
+refactor("R15-3", ["C16", "C17", "C18"])
+refactor("R15-4", ["C04", "C16", "C17", "C19"])
+refactor("R15-5", ["C04", "C16", "C18", "C10"])
+refactor("R16-1", ["C05", "C06", "C10", "C18"])
+refactor("R16-2", ["C08", "C10", "C17", "C18"])
+refactor("R16-3", ["C05", "C06", "C10", "C18"])
+refactor("R16-4", ["C05", "C06", "C18", "C10"])
+refactor("R16-5", ["C10", "C16", "C17", "C19"])
+
+def benign_on(rid, name, props, edits):
+    CATALOGUE.append(dict(name=name, kind="benign", props=props, edits=edits, rule="", where="", patch="seeded/refactors/" + rid + "/patch.diff"))
+
+brk_on("R15-1", "on-R15-1-argument-helper-loses-buffer-case", ["C17"],
+    [("jpeg/baseline/encoder.go", "	case pixelBytes < width*height*components:\n		return standard.ErrBufferTooSmall\n", "")],
+    "BUFFER-CHECK", "Encode")
+brk_on("R16-2", "on-R16-2-frame-cursor-never-started", ["C10"],
+    [("jpegls/lossless/codec.go", "	// Process all frames\n	if err := frames.start(); err != nil {\n		return err\n	}\n	width, height :=", "	width, height :=")],
+    "ORDER-FRAMES", "Encode")
+brk_on("R16-2", "on-R16-2-frame-cursor-fetches-next-index", ["C10"],
+    [("jpegls/lossless/codec.go", "	frameData, err := fs.src.GetFrame(index)", "	frameData, err := fs.src.GetFrame(index + 1)")],
+    "ORDER-FRAMES", "frame")
+brk_on("R16-4", "on-R16-4-inner-constructor-not-lossless", ["C06"],
+    [("jpeg2000/htj2k/codec.go", "	return &Codec{transferSyntax: ts, lossless: true}", "	return &Codec{transferSyntax: ts, lossless: false}")],
+    "FLOWS-LOSSLESS", "HTJ2KLossless")
+brk_on("R16-4", "on-R16-4-normalize-writes-unconditionally", ["C18"],
+    [("jpeg2000/htj2k/parameters.go", "	if *field != want {\n		*field = want\n	}", "	*field = want")],
+    "PARAMS-RO", "normalize")
+brk_on("R16-4", "on-R16-4-decoder-setup-regenerates-tables-on-odd-lengths", ["C18"],
+    [("jpeg2000/htj2k/vlc_decoder_optimized.go", "	if VLCDecodeTbl0[0].CwdLen == 0 && VLCTbl0[0].CwdLen != 0 {\n		_ = GenerateVLCTables()\n	}", "	if len(data)&1 == 1 {\n		_ = GenerateVLCTables()\n	}")],
+    "NO-GLOBAL-WRITE", "fillVLCDecodeTable")
+_open_helper = [
+    ("jpeg2000/encoder.go", "	// SOC (Start of Codestream) opens the main header.\n	writeMarker(buf, codestream.MarkerSOC)\n", "	// SOC and SIZ open the main header.\n	if err := e.openCodestream(buf); err != nil {\n		return nil, err\n	}\n"),
+    ("jpeg2000/encoder.go", "		{\"SIZ\", e.writeSIZ},                // Image and Tile Size\n", ""),
+    ("jpeg2000/encoder.go", "// writeTileParts appends all tile-parts after the main header.", "func (e *Encoder) openCodestream(buf *bytes.Buffer) error {\n	writeMarker(buf, codestream.MarkerSOC)\n	return e.writeSIZ(buf)\n}\n\n// writeTileParts appends all tile-parts after the main header."),
+]
+benign_on("R15-4", "on-R15-4-soc-and-siz-in-an-opening-helper", ["C16", "C17"], _open_helper)
+brk_on("R15-4", "on-R15-4-opening-helper-and-eoc-dropped", ["C16"],
+    _open_helper + [("jpeg2000/encoder.go", "	// EOC (End of Codestream)\n	writeMarker(buf, codestream.MarkerEOC)\n\n	return buf.Bytes(), nil", "	return buf.Bytes(), nil")],
+    "ORDER-FRAMING", "openCodestream")
+brk_on("R14-5", "on-R14-5-sentinel-helper-returns-bare-copy", ["C08"],
+    [("jpeg2000/mqc/mqc.go", "	return append(buf, 0xFF, 0xFF)", "	return buf"),
+     ("jpeg2000/mqc/mqc.go", "	if mqc.dataLen != 0 {\n		first = uint32(mqc.data[0])\n	}", "	if mqc.dataLen >= 0 {\n		first = uint32(mqc.data[0])\n	}")],
+    "SLICE-CONST", "init")
